@@ -74,6 +74,11 @@ CHECKS = {
         note="'Every process' is sampled by a handful of processes; GC timing is perturbed, not enumerated.",
         technique="metamorphic property-based testing (rapid): same history twice => same trace, under GC perturbation and across OS processes",
         ref="DESIGN.md section 5, C13"),
+    "C14": dict(
+        text="(t) 13 call-site templates covering every way of supplying a component value, from non-inlined functions whose component literal and referent are locals: after return the stack is overwritten, a GC forced and the referent read back (deterministic). (a) generated histories of creations, removals, moves between tables, batch moves, retargeting, overwriting and Reset on entities whose components hold pointers, slices, maps and strings reachable only through them, with tiny capacity increments, while up to 4 goroutines force collections; every referent is read back after every operation and none may be finalized while its component exists (GODEBUG=clobberfree=1 makes a premature free visible). (b) after removal/overwrite/Reset a deterministic finalizer flush must have released every referent.",
+        note="The GC schedule cannot be owned or enumerated from user code: (a) is a stress exploration whose silence is weak evidence and whose hits may need several re-runs to reproduce (replay re-runs the history 30 times); call-site shapes are a finite template set, not generated programs. (t) and (b) are deterministic.",
+        technique="property-based testing (rapid): generated histories under forced concurrent GC with finalizer/token oracles + enumerated call-site templates",
+        ref="DESIGN.md section 5, C14"),
     "C15": dict(
         text="Histories are cut into segments by Reset (2-3 per history on average); after every Reset a brand-new world with the same types, filter values and listener is created and driven in lock-step with the reset world. Both must equal the same model after every operation (components, values, targets, resources, plain and registered queries, events), creations must issue the same handles, and a finding is reported only where the fresh world passes and the reset world fails.",
         note="Raw handles are compared only while implied: after a batch call over several source tables, row and recycling order depend on table iteration order, which the library does not guarantee across worlds with different table-creation histories (DESIGN 4.17).",
